@@ -117,6 +117,12 @@ Definition msg_class (w : world) (s3on : bool) (m : nat) (o : oracle) : bool :=
 
 Definition crun (evs : list event) : world := run ckey cokey evs.
 
+(** the states after 0, 1, 2, ... events *)
+Fixpoint worlds_from (w : world) (evs : list event) : list world :=
+  w :: match evs with [] => [] | e :: r => worlds_from (step ckey cokey w e) r end.
+Definition worlds (evs : list event) : list world := worlds_from w0 evs.
+Definition wat (ws : list world) (n : nat) : world := nth n ws w0.
+
 (** decode suite *)
 Definition optstr_eqb (a b : option str) : bool :=
   match a, b with Some x, Some y => str_eqb x y | None, None => true | _, _ => false end.
